@@ -277,6 +277,20 @@ func VerifH12a() {
 			global[ParameterStatus(string(k))] = string(v)
 		}
 	}
+	// COLLIDE=1: the configured map may also carry a key the server reports
+	// itself (its own value wins, the key is reported once) or server_version
+	// (the configured value is reported unless the Version option overrides it)
+	collideKey := ""
+	if vParam("COLLIDE", 0) == 1 {
+		if c := vChoose(6); c > 0 {
+			collideKey = []string{"client_encoding", "server_encoding", "is_superuser", "session_authorization", "server_version"}[c-1]
+			if global == nil {
+				global = Parameters{}
+			}
+			global[ParameterStatus(collideKey)] = "LATIN1"
+			vReach("configured-key-the-server-reports-itself")
+		}
+	}
 	globalLen := len(global)
 	withVersion := nondetBool()
 	opts := []OptionFn{MessageBufferSize(64 + 8*many), GlobalParameters(global)}
@@ -338,7 +352,11 @@ func VerifH12a() {
 	if withVersion {
 		builtin = 5
 	}
-	vAssert("one-ParameterStatus-per-key", nS == builtin+globalLen)
+	extra := globalLen
+	if collideKey != "" && (collideKey != "server_version" || withVersion) {
+		extra-- // not a key of its own: the server's value is the one reported
+	}
+	vAssert("one-ParameterStatus-per-key", nS == builtin+extra)
 	vAssert("then-ReadyForQuery-idle", k < len(msgs) && msgs[k].typ == 'Z' && msgs[k].body[0] == 'I')
 	vAssert("exactly-one-ReadyForQuery-after-startup", vCount(types, 'Z') == 1 && vCount(types, 'S') == nS)
 	psValue := func(key string) ([]byte, int) {
@@ -368,6 +386,8 @@ func VerifH12a() {
 	if withVersion {
 		expectPS("server_version", "server_version", []byte("15.1"))
 		vReach("with-version")
+	} else if collideKey == "server_version" {
+		expectPS("configured-server_version", "server_version", []byte("LATIN1"))
 	}
 	for g := range gk {
 		dupKey := false
@@ -391,7 +411,10 @@ func VerifH12a() {
 		}
 		vAssert("global-map-entries-intact", vEqStr(global[ParameterStatus(string(gk[g]))], string(gv[last])))
 	}
-	vAssert("server-parameters-visible", len(serverSeen) == builtin+globalLen)
+	vAssert("server-parameters-visible", len(serverSeen) == builtin+extra)
+	if collideKey != "" {
+		vAssert("configured-map-keeps-its-own-value", global[ParameterStatus(collideKey)] == "LATIN1")
+	}
 	if _, has := lookup("user"); has {
 		vReach("user-given")
 	}
